@@ -169,6 +169,74 @@ func C14(c *Ctx) {
 	traversalExhaustiveness(c, "C14-d", []string{"RecoveryExpr", "ThrowExpr"})
 }
 
+// freshTopSlot checks that a push function leaves, on every path, a map at the top slot of p.<stack> that holds
+// nothing but what this call stores: either a map allocated by make() in this call and installed unconditionally
+// before the function ends, or (early return) the existing map under a guard proving it empty (len(m) == 0).
+// It returns "" when the rule holds, else the reason.
+func freshTopSlot(fd *ast.FuncDecl, stack string) string {
+	top := "p." + stack + "[len(p." + stack + ")-1]"
+	fromTop := map[string]bool{} // locals loaded from the top slot
+	madeAt := map[string][]ast.Node{}
+	var installs []*ast.AssignStmt
+	ast.Inspect(fd.Body, func(n ast.Node) bool {
+		as, ok := n.(*ast.AssignStmt)
+		if !ok || len(as.Lhs) != 1 || len(as.Rhs) != 1 {
+			return true
+		}
+		l, r := nospace(as.Lhs[0]), nospace(as.Rhs[0])
+		if r == top {
+			fromTop[l] = true
+		}
+		if strings.HasPrefix(r, "make(map[") {
+			madeAt[l] = append(madeAt[l], as)
+		}
+		if l == top {
+			installs = append(installs, as)
+		}
+		return true
+	})
+	// early returns
+	for _, rs := range returnsOf(fd) {
+		gs := guardsOf(fd.Body, rs.Pos())
+		ok := false
+		for _, gd := range gs {
+			for m := range fromTop {
+				for _, conj := range strings.Split(gd, "&&") {
+					if conj == "len("+m+")==0" {
+						ok = true
+					}
+				}
+			}
+		}
+		if !ok {
+			return "returns early under [" + strings.Join(gs, ";") + "] without proving the reused map empty"
+		}
+	}
+	// the fall-through end: an unconditional install of a map made in this call
+	for _, in := range installs {
+		if len(guardsOf(fd.Body, in.Pos())) != 0 {
+			continue
+		}
+		v := nospace(in.Rhs[0])
+		if strings.HasPrefix(v, "make(map[") {
+			return ""
+		}
+		// every definition of v reaching the install must be a make(): the last assignment to v before the install is an unconditional make
+		var last ast.Node
+		ast.Inspect(fd.Body, func(n ast.Node) bool {
+			if as, ok := n.(*ast.AssignStmt); ok && len(as.Lhs) == 1 && nospace(as.Lhs[0]) == v && as.Pos() < in.Pos() {
+				last = as
+			}
+			return true
+		})
+		if las, ok := last.(*ast.AssignStmt); ok && strings.HasPrefix(nospace(las.Rhs[0]), "make(map[") && len(guardsOf(fd.Body, las.Pos())) == 0 {
+			return ""
+		}
+		return "the map installed at the top slot (" + v + ") is not freshly allocated on every path: entries of an earlier scope can survive"
+	}
+	return "no unconditional installation of a fresh map at the top slot: a map left behind by an earlier push at this depth can be reused with its entries"
+}
+
 func c14Shapes(c *Ctx, a *absVariant) {
 	r := c.R
 	vn := a.V.Name
@@ -180,8 +248,8 @@ func c14Shapes(c *Ctx, a *absVariant) {
 	}
 	ps := push.Type.Params.List
 	labels, expr := ps[0].Names[0].Name, ps[1].Names[0].Name
-	grow, fill, install := false, false, false
-	mapVar := ""
+	grow, fill := false, false
+	fillVar := ""
 	ast.Inspect(push.Body, func(n ast.Node) bool {
 		switch x := n.(type) {
 		case *ast.AssignStmt:
@@ -189,30 +257,37 @@ func c14Shapes(c *Ctx, a *absVariant) {
 			if l == "p.recoveryStack" && (rr == "append(p.recoveryStack,nil)" || rr == "p.recoveryStack[:len(p.recoveryStack)+1]") {
 				grow = true
 			}
-			if strings.HasPrefix(rr, "make(map[string]any") {
-				mapVar = l
-			}
-			if l == "p.recoveryStack[len(p.recoveryStack)-1]" && rr == mapVar && mapVar != "" {
-				install = true
-			}
 		case *ast.RangeStmt:
 			if nospace(x.X) == labels && x.Value != nil && len(x.Body.List) == 1 {
-				if as, ok := x.Body.List[0].(*ast.AssignStmt); ok && nospace(as.Lhs[0]) == mapVar+"["+nospace(x.Value)+"]" && nospace(as.Rhs[0]) == expr {
+				if as, ok := x.Body.List[0].(*ast.AssignStmt); ok && strings.HasSuffix(nospace(as.Lhs[0]), "["+nospace(x.Value)+"]") && nospace(as.Rhs[0]) == expr {
 					fill = true
+					fillVar = strings.TrimSuffix(nospace(as.Lhs[0]), "["+nospace(x.Value)+"]")
 				}
 			}
 		}
 		return true
 	})
-	r.Check(grow && fill && install, "C14-a2", "T.pushRecovery:shape", vn, a.V.Where(push.Pos()), "grow by one; map every label to the expression; install at the top", fmt.Sprintf("grow=%t fill=%t install=%t", grow, fill, install))
+	fresh := freshTopSlot(push, "recoveryStack")
+	installedIsFilled := false
+	ast.Inspect(push.Body, func(n ast.Node) bool {
+		if as, ok := n.(*ast.AssignStmt); ok && nospace(as.Lhs[0]) == "p.recoveryStack[len(p.recoveryStack)-1]" && nospace(as.Rhs[0]) == fillVar {
+			installedIsFilled = true
+		}
+		return true
+	})
+	detail := fmt.Sprintf("grow=%t fill=%t installed-map-is-the-filled-one=%t", grow, fill, installedIsFilled)
+	if fresh != "" {
+		detail += "; " + fresh
+	}
+	r.Check(grow && fill && installedIsFilled && fresh == "", "C14-a2", "T.pushRecovery:shape", vn, a.V.Where(push.Pos()), "grow by one; a fresh map sends every label to the expression; installed at the top", detail)
 	shrink := false
 	ast.Inspect(pop.Body, func(n ast.Node) bool {
-		if as, ok := n.(*ast.AssignStmt); ok && nospace(as.Lhs[0]) == "p.recoveryStack" && nospace(as.Rhs[0]) == "p.recoveryStack[:len(p.recoveryStack)-1]" {
+		if as, ok := n.(*ast.AssignStmt); ok && nospace(as.Lhs[0]) == "p.recoveryStack" && nospace(as.Rhs[0]) == "p.recoveryStack[:len(p.recoveryStack)-1]" && len(guardsOf(pop.Body, as.Pos())) == 0 {
 			shrink = true
 		}
 		return true
 	})
-	r.Check(shrink, "C14-a2", "T.popRecovery:shape", vn, a.V.Where(pop.Pos()), "stack shortened by one", "popRecovery does not shorten the stack by exactly one")
+	r.Check(shrink, "C14-a2", "T.popRecovery:shape", vn, a.V.Where(pop.Pos()), "stack shortened by one", "popRecovery does not shorten the stack by exactly one on every path")
 }
 
 // emittedPairs extracts, from a builder writer, the sequence of (emitted key, source expression) pairs:
